@@ -115,14 +115,18 @@ func (p *Processor) Run(ctx context.Context) error {
 					continue
 				}
 
+				// Segments of a partition are handled in offset order. A failure on
+				// one of them ends this cycle for the partition: carrying on with the
+				// next segment would commit a checkpoint past records that were never
+				// written. The failed segment is retried on the next poll.
 				state, err := p.store.LoadOffset(ctx, seg.Topic, seg.Partition)
 				if err != nil {
-					continue
+					break
 				}
 
 				batches, err := p.decode.Decode(ctx, seg.SegmentKey, seg.IndexKey)
 				if err != nil {
-					continue
+					break
 				}
 
 				records := mapBatches(batches)
@@ -141,7 +145,7 @@ func (p *Processor) Run(ctx context.Context) error {
 				err = p.sink.Write(ctx, records)
 				unlock()
 				if err != nil {
-					continue
+					break
 				}
 
 				last := records[len(records)-1]
